@@ -341,6 +341,7 @@ def _child(rec):
                     "v": molecule.velocities.clone(),
                     "amp": dyn._amp_phase.clone(),
                     "act": dyn._active_states.clone(),
+                    "F": molecule.force.detach().clone() if torch.is_tensor(getattr(molecule, "force", None)) else None,
                     "events": [(e.mol_index, e.from_state, e.to_state, e.accepted, e.reason) for e in events],
                     "norm_drift": cur.get("norm_drift"),
                     "nsub": cur.get("nsub"),
@@ -634,6 +635,18 @@ def _child(rec):
             ke = 0.5 * (mol.mass * l["v"] ** 2).sum((1, 2)) * KE
             Et.append(ke + E[torch.arange(rec["nmol"]), l["act"]])
         Et = torch.stack(Et)
+        # after the hop stage of EVERY step each trajectory is driven by the force of ITS (possibly new) active state,
+        # whatever happened to the other trajectories of the batch in that step
+        for s, l in enumerate(a.log):
+            if l.get("F") is None:
+                continue
+            _, dE_, _, dq_ = model.solve(l["x"])
+            wantF = (-dE_[torch.arange(rec["nmol"]), l["act"]]).view(-1, 1, 1) * dq_
+            devF = (l["F"] - wantF).abs().amax(dim=(1, 2))
+            if float(devF.max()) > 1e-10:
+                m = int(torch.argmax(devF))
+                failures.append({"oracle": "force-of-active-state", "msg": f"step {s}: trajectory {m} (active state {int(l['act'][m])}) leaves the hop stage with a force that differs from the force of its active surface by {float(devF[m]):.3e} eV/A; hop events of the step: {l['events']}", "detail": {}})
+                break
         jump = (Et[1:] - Et[:-1]).abs()
         for s in range(1, len(a.log)):
             for (m, i, j, acc, reason) in a.log[s]["events"]:
@@ -761,7 +774,8 @@ def gen(rng, tier, i):
         rec.update(
             kind="model",
             ns=rng.randint(2, 6),
-            nmol=rng.randint(3, 8),
+            # a third of the runs with large batches: several hop attempts (accepted and frustrated) in one step
+            nmol=rng.randint(3, 8) if rng.random() < 0.65 else rng.randint(24, 48),
             natom=3,
             steps=rng.randint(150, 300 if tier == "quick" else 400),
             dt=rng.choice([0.05, 0.1]),
